@@ -561,6 +561,101 @@ def t3_refinement_skeleton(ctx: Ctx):
     ctx.check(ok, ANA, mc, '_magnitude_constraint', 'a comparison tightens only the bound it speaks about, only toward zero, only for a dyadic literal', 'changed')
 
 
+def t5_partial_fit_specials(ctx: Ctx):
+    """`_bound_if_fits` bounds the image of `round_C(exact)`.  When *exact* neither fits the scope nor covers it, the bound is
+    the intersection of the two, built field by field.  The image contains more than finite numbers: a NaN that *exact*
+    carries stays a NaN, an infinity stays one, a finite value beyond the scope's largest rounds to an infinity, a
+    negative value finer than the scope's quantum may round to -0 -- each where the scope has that special.  The flag
+    expressions of the constructed intersection are evaluated, from their source, over stand-in formats (all 16 flag
+    combinations on either side, bounds inside / outside the scope, quantum finer / coarser) and must cover those."""
+    from itertools import product
+
+    from ..minipy import Interp, Obj
+    q = '_FormatInferInstance._bound_if_fits'
+    fn = ctx.fn(ANA, q)
+    builds = [s.value for s in walk_no_nested(fn) if isinstance(s, ast.Assign) and norm(s.targets[0]) == 'overlap' and isinstance(s.value, ast.Call) and call_name(s.value) == 'AbstractFormat']
+    if len(builds) != 1:
+        raise ShapeError('_bound_if_fits: the intersection format is not built in one place')
+    kw = {k.arg: k.value for k in builds[0].keywords}
+    flags = ('has_pos_inf', 'has_neg_inf', 'has_nan', 'has_neg_zero')
+    it = Interp({})
+    n = 0
+    bad = None
+    for ef in product((False, True), repeat=4):
+        for sf in product((False, True), repeat=4):
+            for ep, en, ee in product((5, 20), (-5, -20, 0), (-3, 0)):
+                exact = Obj('AbstractFormat', prec=10, exp=ee, pos_bound=ep, neg_bound=en, **dict(zip(flags, ef)))
+                scope = Obj('AbstractFormat', prec=8, exp=-1, pos_bound=10, neg_bound=-10, **dict(zip(flags, sf)))
+                env = {'exact': exact, 'scope_af': scope}
+                got = {f: bool(it.ev(kw[f], dict(env))) if f in kw else False for f in flags}
+                need = {
+                    'has_pos_inf': sf[0] and (ef[0] or ep > 10),
+                    'has_neg_inf': sf[1] and (ef[1] or en < -10),
+                    'has_nan': sf[2] and ef[2],
+                    'has_neg_zero': sf[3] and (ef[3] or (en < 0 and ee < -1)),
+                }
+                n += 1
+                for f in flags:
+                    if need[f] and not got[f] and bad is None:
+                        what = {'has_pos_inf': '+inf', 'has_neg_inf': '-inf', 'has_nan': 'NaN', 'has_neg_zero': '-0'}[f]
+                        bad = (f'exact {{{", ".join(x for x, v in zip(flags, ef) if v) or "finite only"}, bounds [{en}, {ep}], quantum 2**{ee}}} rounded into a scope '
+                               f'{{{", ".join(x for x, v in zip(flags, sf) if v) or "finite only"}, bounds [-10, 10], quantum 2**-1}}: the image holds {what}, the bound does not')
+    ctx.check(bad is None, ANA, builds[0], q, f'the bound of a rounding that only partly fits its scope keeps every special value the image can hold ({n} format pairs)',
+              (bad or '') + ' (x + 1 under FP64 for an FP64 x was inferred as a format without NaN and infinities)')
+
+
+def t6_captured_values(ctx: Ctx):
+    """The format stated for a captured value has to hold that value.  A finite number is stated as the singleton set of
+    itself; what a Fraction cannot say -- a negative zero -- has to be said as the set {-0}; an infinity or a NaN must not
+    fall back to the bound derived from the type, which under a pinned context (SINT8, a fixed-point format) holds
+    neither.  `_free_var_format` is evaluated, from its source, on one stand-in per kind of capturable scalar."""
+    import math
+    from fractions import Fraction
+
+    from ..minipy import Interp, Obj
+    fn = ctx.fn(ANA, '_free_var_format')
+
+    def num(kind, **f):
+        o = Obj(kind, **f)
+        o.fields.setdefault('is_finite', lambda o=o: not (o.fields.get('isinf') or o.fields.get('isnan')))
+        o.fields.setdefault('is_zero', lambda o=o: o.fields.get('zero', False))
+        o.fields.setdefault('as_rational', lambda o=o: ('rational-of', o))
+        return o
+    cases = [
+        ('Float 1.5', num('Float', s=False), 'value'), ('Float +0', num('Float', s=False, zero=True), 'value'), ('Float -0', num('Float', s=True, zero=True), 'negzero'),
+        ('Float +inf', num('Float', s=False, isinf=True), 'nonfinite'), ('Float NaN', num('Float', s=False, isnan=True), 'nonfinite'),
+        ('RealFloat 1.5', num('RealFloat', s=False), 'value'), ('RealFloat -0', num('RealFloat', s=True, zero=True), 'negzero'),
+        ('int 3', 3, 'value'), ('float 1.5', 1.5, 'value'), ('float -0.0', -0.0, 'negzero'), ('float inf', math.inf, 'nonfinite'), ('float nan', math.nan, 'nonfinite'),
+        ('Fraction 1/3', Fraction(1, 3), 'value'),
+    ]
+
+    def frac(v):
+        if isinstance(v, Obj):
+            return ('rational-of', v)
+        return Fraction(v)
+    n = 0
+    for label, v, want in cases:
+        it = Interp({'_free_var_format': fn}, globals_={'NEG_ZERO': 'NEG_ZERO', 'REAL_FORMAT': 'REAL_FORMAT', 'math': math},
+                    overrides={'SetFormat.from_value': lambda x: ('set', x), 'Fraction': frac, 'math.copysign': math.copysign})
+        try:
+            got = it.call_function(fn, [v])
+        except Exception as ex:       # a raise inside the table is a verdict on that row, not an analysis failure
+            got = ('raises', type(ex).__name__)
+        n += 1
+        if want == 'negzero':
+            ok = got in (('set', 'NEG_ZERO'), 'REAL_FORMAT')
+            why = 'a negative zero is stated as {-0} (a Fraction has none)'
+        elif want == 'nonfinite':
+            ok = got == 'REAL_FORMAT'
+            why = 'an infinity / NaN is given a format that holds it (the type-derived bound of a pinned context does not)'
+        else:
+            ok = isinstance(got, tuple) and got[0] == 'set' and got[1] != 'NEG_ZERO'
+            why = 'a finite number is stated as the singleton set of itself'
+        ctx.check(ok, ANA, fn, '_free_var_format', f'captured {label}: {why}', f'got {got!r}')
+    if n < 12:
+        raise ShapeError('captured-value table incomplete')
+
+
 def t4_exact_shortcuts(ctx: Ctx):
     """`exact_binop` and `exact_unop` answer through an algebraic identity when an operand is the singleton {0}.  The
     identities that hold are `0 + x = x`, `x + 0 = x` and `x - 0 = x`; `0 - x` is `-x` and `0 * x` is not 0 for an
@@ -628,6 +723,8 @@ RULES = [
     Rule('C14.T2', 'containment agrees with membership; round_is_identity is containment in the target format', t2_containment, 10, 'T'),
     Rule('C14.D1', 'inference phis join both operands; loops iterate until stable with widening only past the limit; exact walk for known trip counts', d1_phi_updates, 21, 'D'),
     Rule('C14.X1', '_join_bounds returns an operand only under equality or proven containment', x1_join_table, 8, 'X'),
+    Rule('C14.T6', 'the format stated for a captured scalar holds it: -0 as {-0}, infinities and NaN never through the type-derived bound', t6_captured_values, 13, 'T'),
+    Rule('C14.T5', 'the bound of a rounding that only partly fits its scope keeps the special values the image can hold', t5_partial_fit_specials, 1, 'T'),
     Rule('C14.T4', 'exact_binop shortcuts for a {0} operand use only identities that hold (0 + x, x + 0, x - 0; never 0 - x = x or 0 * x = 0)', t4_exact_shortcuts, 15, 'T'),
     Rule('C14.T3', 'branch refinement follows from the condition (boolean skeleton of _implied; negation table; direction of the constraint)', t3_refinement_skeleton, 3, 'T'),
 ]
@@ -635,6 +732,23 @@ RULES = [
 from ..selftest import Mutant  # noqa: E402
 
 MUTANTS = [
+    # T6
+    Mutant('captured-python-negative-zero-is-plus-zero', ANA, "            if isinstance(val, float) and val == 0 and math.copysign(1.0, val) < 0:\n                # a `Fraction` has no `-0`; the captured value does\n                return SetFormat.from_value(NEG_ZERO)\n", "", 'C14.T6',
+           'finding F59 before its repair'),
+    Mutant('captured-infinity-falls-back-to-the-type', ANA, "                # the type-derived bound is a format of the pinned context,\n                # which need not hold an infinity or a NaN\n                return REAL_FORMAT", "                return None", 'C14.T6',
+           'finding F59 before its repair: a captured inf under a pinned SINT8 is given an 8-bit integer format'),
+    Mutant('captured-float-negative-zero-unstated', ANA, "            if val.is_zero() and val.s:\n                return SetFormat.from_value(NEG_ZERO)\n            return SetFormat.from_value(val.as_rational())", "            return SetFormat.from_value(val.as_rational())", 'C14.T6'),
+    # T5
+    Mutant('partial-fit-drops-the-specials', ANA,
+           "        overlap = AbstractFormat(\n            prec, exp, pos_bound, neg_bound=neg_bound,\n            has_pos_inf=scope_af.has_pos_inf and (\n                exact.has_pos_inf or exact.pos_bound > scope_af.pos_bound\n            ),\n"
+           "            has_neg_inf=scope_af.has_neg_inf and (\n                exact.has_neg_inf or exact.neg_bound < scope_af.neg_bound\n            ),\n            has_nan=scope_af.has_nan and exact.has_nan,\n"
+           "            has_neg_zero=scope_af.has_neg_zero and (\n                exact.has_neg_zero\n                or (exact.neg_bound < 0 and exact.exp < scope_af.exp)\n            ),\n        )\n",
+           "        overlap = AbstractFormat(prec, exp, pos_bound, neg_bound=neg_bound)\n", 'C14.T5', 'finding F58 before its repair'),
+    Mutant('overflow-to-infinity-forgotten', ANA, "                exact.has_pos_inf or exact.pos_bound > scope_af.pos_bound\n", "                exact.has_pos_inf\n", 'C14.T5',
+           'round(n) of an unbounded integer under FP32: 2**200 rounds to +inf'),
+    Mutant('nan-of-the-operand-forgotten', ANA, "            has_nan=scope_af.has_nan and exact.has_nan,\n", "            has_nan=False,\n", 'C14.T5', 'finding F58 before its repair: x + 1 under FP64 without NaN'),
+    Mutant('underflow-to-negative-zero-forgotten', ANA, "                or (exact.neg_bound < 0 and exact.exp < scope_af.exp)\n", "", 'C14.T5'),
+    Mutant('partial-fit-takes-all-scope-specials', ANA, "            has_nan=scope_af.has_nan and exact.has_nan,\n", "            has_nan=scope_af.has_nan,\n", 'C14.T5', 'wider than needed, still a bound', expect='silent'),
     # T4
     Mutant('zero-minus-x-is-x', ANA, "    if op is operator.add:\n        if lhs_zero:\n            return rhs if isinstance(rhs, SetFormat) else _to_abstract(rhs)\n        if rhs_zero:\n            return lhs if isinstance(lhs, SetFormat) else _to_abstract(lhs)\n    if op is operator.sub and rhs_zero:\n        return lhs if isinstance(lhs, SetFormat) else _to_abstract(lhs)",
            "    if op is operator.add or op is operator.sub:\n        if lhs_zero:\n            return _to_abstract(rhs)\n        if rhs_zero:\n            return _to_abstract(lhs)", 'C14.T4',
